@@ -226,6 +226,28 @@ theorem step_cases (parse : Bytes → Option Uuid) (s : PState) (op : Op) (h : A
                 · left; exact ⟨_, rfl⟩
                 · left; exact ⟨_, rfl⟩
 
+/-- what a successful `verifies` means -/
+theorem verifies_some (parse : Bytes → Option Uuid) (s : PState) (v : VerifyAttempt) (u : Uuid)
+    (h : verifies parse s v = some u) :
+    v.outerOk = true ∧ ∃ idb k, v.idb = some idb ∧ parse idb = some u ∧ aget s.paired u = some k ∧
+      v.signer = some k := by
+  unfold verifies at h
+  split at h
+  · cases h
+  · next ho =>
+    split at h
+    · cases h
+    · next idb hidb =>
+      split at h
+      · cases h
+      · next u' hp =>
+        split at h
+        · cases h
+        · next k hk =>
+          split at h
+          · next hs => cases h; exact ⟨by simpa using ho, idb, k, hidb, hp, hk, hs⟩
+          · cases h
+
 /-! ### dict keys stay unique -/
 
 /-- representation invariant of Python dicts: no key occurs twice -/
